@@ -213,3 +213,79 @@ func TestKnownD10ProposalTotal(t *testing.T) {
 		ev.Violation(t, k, text(), "%s", c.msgs[i])
 	}
 }
+
+// ---------------------------------------------------------------- BitArray.Or with a shorter operand
+
+const keyOr = "panic:lib/common.(*BitArray).Or"
+
+// orWires: the peer is at the victim's height/round, any vote makes the reactor allocate the peer's vote bit arrays,
+// then VoteSetBits for a block the victim holds prevotes for, with an EMPTY bit array - which is exactly what an honest
+// node answers to a VoteSetMaj23 claim when it has no vote for that block.
+func orWires(v *victim, id types.BlockID) []wire {
+	cs := v.nd.CS
+	c := newCtx(v)
+	c.attacker = (v.V + 1) % len(v.s.Keys)
+	vt := v.s.SignVote(c.attacker, v.nd, kproto.PrevoteType, cs.Height, cs.Round, types.BlockID{})
+	return []wire{
+		v.roundStepWire(cs.Height, cs.Round, 4),
+		{ch: consensus.VoteChannel, desc: "Vote", data: encCons(&kcons.Vote{Vote: vt.ToProto()})},
+		{ch: consensus.VoteSetBitsChannel, desc: "VoteSetBits{empty}", data: encCons(&kcons.VoteSetBits{Height: cs.Height, Round: cs.Round, Type: kproto.PrevoteType, BlockID: id.ToProto()})},
+	}
+}
+
+func TestKnownBitArrayOr(t *testing.T) {
+	v, err := buildVictim(scenario{2, "locked"})
+	if err != nil {
+		t.Fatalf("harness: %v", err)
+	}
+	defer v.close()
+	cs := v.nd.CS
+	if cs.LockedBlock == nil {
+		t.Fatalf("harness: victim is not locked (%s)", v.state)
+	}
+	id := types.BlockID{Hash: cs.LockedBlock.Hash(), PartsHeader: cs.LockedBlockParts.Header()}
+	ws := orWires(v, id)
+	text := func() string { return "scn=" + v.sc.String() + " " + wiresText(ws) }
+	var c collector
+	info := v.runSequence(t, c.report, ws, text)
+	ev.Case(true, text(), "directed", "directed:BitArray.Or")
+	ev.Sample("directed:BitArray.Or", fmt.Sprintf("NewRoundStep(h,r), a prevote, VoteSetBits{h,r,prevote,<locked block>,Votes:{}}: decoded=%v dropped=%v keys=%v", info.decoded, info.dropped, c.keys))
+	if ev.Known(keyOr) {
+		ev.KnownReproduced(keyOr, c.has(keyOr))
+		return
+	}
+	for i, k := range c.keys {
+		ev.Violation(t, k, text(), "%s", c.msgs[i])
+	}
+}
+
+// ---------------------------------------------------------------- precommit for height 0 at the initial height
+
+const keyAddVoteNil = "panic:types.(*VoteSet).AddVote"
+
+func TestKnownPrecommitHeightZero(t *testing.T) {
+	v, err := buildVictim(scenario{1, "newheight"})
+	if err != nil {
+		t.Fatalf("harness: %v", err)
+	}
+	defer v.close()
+	if v.nd.CS.Height != 1 || v.nd.CS.Step != 1 {
+		t.Fatalf("harness: victim not in NewHeight of height 1 (%s)", v.state)
+	}
+	// no key needed: the signature only has to be non-empty for ValidateBasic
+	ws := []wire{{ch: consensus.VoteChannel, desc: "Vote{precommit, height 0}", data: encCons(&kcons.Vote{Vote: &kproto.Vote{Type: kproto.PrecommitType, Height: 0, Round: 1,
+		ValidatorAddress: make([]byte, 20), Signature: []byte{1}}})}}
+	text := func() string { return "scn=" + v.sc.String() + " " + wiresText(ws) }
+	var c collector
+	info := v.runSequence(t, c.report, ws, text)
+	ev.Case(true, text(), "directed", "directed:precommit-height-0")
+	ev.Sample("directed:precommit-height-0", fmt.Sprintf("one %d-byte VoteMessage{precommit, Height 0, 1-byte signature} to a node in NewHeight of height 1: decoded=%v queued=%d keys=%v",
+		len(ws[0].data), info.decoded, info.queued, c.keys))
+	if ev.Known(keyAddVoteNil) {
+		ev.KnownReproduced(keyAddVoteNil, c.has(keyAddVoteNil))
+		return
+	}
+	for i, k := range c.keys {
+		ev.Violation(t, k, text(), "%s", c.msgs[i])
+	}
+}
